@@ -88,7 +88,7 @@ def gen_doubles(r, n_random):
     return ds
 
 
-NEAR_MISSES = ['\x1c7', '7\x1f', '\x1d 7', '7 \x1e', '\x1c\x1d\x1e\x1f', '\x857', '7\u2003', '\x1c7\u2003', '1e5', '1_0', '١٢', ' 1 ', '0x10', '1.', '.5', '--1', '1e+999', 'nan', 'inf', 'Infinity', '-inf', '+nan', 'NaN', 'INFINITY',
+NEAR_MISSES = ['1,000', '1,234.5', '12,345,678', '0.1,234', '1,5', '\x1c7', '7\x1f', '\x1d 7', '7 \x1e', '\x1c\x1d\x1e\x1f', '\x857', '7\u2003', '\x1c7\u2003', '1e5', '1_0', '١٢', ' 1 ', '0x10', '1.', '.5', '--1', '1e+999', 'nan', 'inf', 'Infinity', '-inf', '+nan', 'NaN', 'INFINITY',
                '1e309', '1.8e308', '-1e999', '1.7976931348623157e308', '1.7976931348623159e308', '1e-400', '', ' ', '+', '-', '.', 'e5', '1e', '1e+',
                '1e+-5', '1..2', '1.2.3', '1 2', '1,5', '0b101', '0o17', '1__0', '_1', '1_', '1_.5', '1._5', '1e_5', '1e5_0', '1_0.0_1e1_0', '١.٥',
                '１２', '\t12\n', '\x0b7\x0c', ' 5 ', '12abc', 'abc', '1e5x', '0.1e-2', '+.5e+1', '-0', '-0.0', '00012', '007', '1' * 400,
